@@ -86,6 +86,8 @@ pub assume_specification [<Regions as Default>::default] () -> (r: Regions)
         })""", L),
             ("""res is Ok && res->Ok_0 is Some ==> vftable_of_first_base(&final(semantic).type_registry, *resolvee_path, regions@, vftable_functions,
                     (res->Ok_0->0).1, (res->Ok_0->0).0@)""", ("C06",), "vftable-of-first-base"),
+            ("""res is Ok && res->Ok_0 is Some ==> resolve_regions_spec(&final(semantic).type_registry, *resolvee_path, regions@, vftable_functions,
+                    target_size, (res->Ok_0->0).1, (res->Ok_0->0).0@, (res->Ok_0->0).2)""", ("C01", "C17", "C20"), "regions-functional-spec"),
             ("final(semantic).modules@.dom() == old(semantic).modules@.dom()", ("C12", "C10"), "keeps-modules"),
             ("registry_frame(&old(semantic).type_registry, &final(semantic).type_registry, *resolvee_path)", ("C10", "C19"), "attempt-frame"),
         ])
@@ -103,7 +105,8 @@ pub assume_specification [<Regions as Default>::default] () -> (r: Regions)
     ghost(ctx, fw, u, after(fw, fw.top_let(fn, "vftable")), """let ghost vr0 = vftable_region; let ghost vft0 = vftable;""")
     ghost(ctx, fw, u, after(fw, fw.top_let(fn, "vftable")), """proof { lemma_sum_empty(&semantic.type_registry); assert(resolved.regions@ =~= Seq::<Region>::empty()); }""")
     ghost(ctx, fw, u, before(fw, l1), """let ghost mut pos: Seq<int> = Seq::empty();
-    let ghost init_acc = (resolved.regions@, resolved.last_address as nat);""")
+    let ghost init_acc = (resolved.regions@, resolved.last_address as nat);
+    proof { assert(init_acc == (match vr0 { Some(r) => place((Seq::<Region>::empty(), 0nat), r, &semantic.type_registry), None => (Seq::<Region>::empty(), 0nat) })); }""")
     loop_spec(ctx, fw, u, l1, label="it", tags=L, invariants=[
         "reg_wf(&semantic.type_registry)",
         ("vr0 is Some ==> resolved.regions@.len() > 0 && resolved.regions@[0] == vr0->0", ("C06",)),
@@ -140,10 +143,16 @@ pub assume_specification [<Regions as Default>::default] () -> (r: Regions)
                 }
             }
         }""")
-    ghost(ctx, fw, u, after(fw, l1), "let ghost pre_pad = resolved.regions@;")
+    ghost(ctx, fw, u, after(fw, l1), """let ghost pre_pad = resolved.regions@; let ghost pre_pad_end = resolved.last_address;
+    proof { assert(Some((pre_pad, pre_pad_end as nat)) == layout_fields(regions@, regions@.len() as int, init_acc, &semantic.type_registry)); }""")
     ghost(ctx, fw, u, after(fw, fw.top_let(fn, "size")), """let ghost pre = resolved.regions@;
     let ghost reg = &semantic.type_registry;
-    proof { lemma_sum_empty(reg); assert(pre.take(0) =~= Seq::<Region>::empty()); }""")
+    proof { lemma_sum_empty(reg); assert(pre.take(0) =~= Seq::<Region>::empty());
+            assert((pre, resolved.last_address as nat) == tail_pad((pre_pad, pre_pad_end as nat), target_size, reg)); }""")
+    mac = [m for m in fw.in_fn(fn, ("macro",)) if m["path"] == "format" and l2["span"][0] <= m["span"][0] < l2["span"][1]]
+    if len(mac) != 1:
+        raise rules.WeaveError("resolve_regions: expected one format! in the renaming loop")
+    rules.fmt_value(fw, mac[0], "v_format1_usize")
     rules.for_mut_to_iter_mut(fw, l2)
     loop_spec(ctx, fw, u, l2, label="it2", tags=L, invariants=[
         "reg == &semantic.type_registry",
@@ -157,6 +166,7 @@ pub assume_specification [<Regions as Default>::default] () -> (r: Regions)
         "size == offset_of(pre, it2.index() as int, reg)",
         """forall|i: int| 0 <= i < it2.index() ==> (#[trigger] final(it2.seq()[i])).type_ref == pre[i].type_ref
                 && (pre[i].name is Some ==> *final(it2.seq()[i]) == pre[i])""",
+        ("""forall|i: int| 0 <= i < it2.index() ==> (pre[i].name is None ==> anon_ok(*#[trigger] final(it2.seq()[i]), pre[i].type_ref, offset_of(pre, i, reg)))""", ("C17", "C20")),
     ])
     ghost(ctx, fw, u, body_start(l2), """proof {
             lemma_offset_step(pre, it2.index() as int, reg);
@@ -181,5 +191,8 @@ pub assume_specification [<Regions as Default>::default] () -> (r: Regions)
         assert(vftable_result_ok(reg, *resolvee_path, first_base_of(regions@), vftable_functions, (vft0, vr0)));
         assert(vr0 is Some ==> out[0] == vr0->0);
         assert(vftable_of_first_base(reg, *resolvee_path, regions@, vftable_functions, vft0, out));
+        assert(finalized_from(pre, out, reg));
+        assert(regions_spec(regions@, vr0, target_size, out, size, reg));
+        assert(resolve_regions_spec(reg, *resolvee_path, regions@, vftable_functions, target_size, vft0, out, size));
     }""")
 
